@@ -216,7 +216,7 @@ func main() {
 }
 
 func c18(c *Ctx) {
-	c.Rule = "tie (i): the call graph, then one request per distinct (function, struct, field, read/write) selector site of package service on the statically placed structs, every static call / go / closure-sent-on-a-channel edge between its functions and every variable captured by a closure that runs in another goroutine (exhaustive over the current source); the model side derives the goroutine class(es) reaching each function from its root table and judges each site by (class, location, role); tie (ii): scenarios of 6..20 terminals (first messages, duplicate keys, heartbeats, locations, authentication, sub-packaged and unsupported messages, answers / missing answers / duplicate answers, FIN / close / RST) x 2..6 callers (7 command types, with and without timer, 1..100 ms timeouts) on one server built with -race and seeded delays before every channel operation of connection.go; every 8th round additionally the 23 (thorough: 26) command / teardown scenario kinds of C12/C13 (lib/conc_writer.go GenW/RunW) run in parallel on the same server; non-trivial = a scenario in which commands were answered AND timed out or were cut by a teardown; distinct = distinct scenario seeds"
+	c.Rule = "tie (i): the call graph, then one request per distinct (function, struct, field, read/write) selector site of package service on the statically placed structs, every static call / go / closure-sent-on-a-channel edge between its functions and every variable captured by a closure that runs in another goroutine (exhaustive over the current source); the model side derives the goroutine class(es) reaching each function from its root table and judges each site by (class, location, role); tie (ii): scenarios of 6..20 terminals (first messages, duplicate keys, heartbeats, locations, authentication, sub-packaged and unsupported messages, answers / missing answers / duplicate answers, FIN / close / RST) x 2..6 callers (7 command types, with and without timer, 1..100 ms timeouts) on one server built with -race and seeded delays before every channel operation of connection.go; every 8th round additionally the 22 (thorough: all 26) command / teardown scenario kinds of C12/C13 (lib/conc_writer.go GenW/RunW) run in parallel on the same server; non-trivial = a scenario in which commands were answered AND timed out or were cut by a teardown; distinct = distinct scenario seeds"
 	rng := c.Rng
 	// ---- tie (i): access sites
 	sites, edges, caps, err := listSites(ServiceDir())
@@ -288,11 +288,17 @@ func c18(c *Ctx) {
 		}
 		if n%8 == 4 { // the command / teardown scenario kinds of C12/C13 (lib/conc_writer.go), all kinds in parallel
 			wreq := fmt.Sprintf("racew %d %d", rng.Int63n(1<<30), map[bool]int{true: 0, false: 1}[c.Quick()])
+			tw := time.Now()
 			wans, wst := rr.ch.Ask(wreq, 240*time.Second)
+			tot["ms_in_racew"] += time.Since(tw).Milliseconds()
 			rr.collect(c, wreq, seenSig)
 			if wst == "ok" {
-				var ws struct{ WKinds, WViol int }
+				var ws struct {
+					WKinds, WViol int
+					Durs          string
+				}
 				json.Unmarshal([]byte(wans), &ws)
+				c.Extra["wkinds_last_durations_ms"] = ws.Durs
 				tot["wkinds_run"] += int64(ws.WKinds)
 				tot["wkinds_verdicts_of_their_own_oracle"] += int64(ws.WViol)
 				c.Eval(wreq, true)
@@ -304,7 +310,9 @@ func c18(c *Ctx) {
 			}
 		}
 		req := fmt.Sprintf("racescen %d %d %d %d", rng.Int63n(1<<40), 6+rng.Intn(15), 2+rng.Intn(5), ms)
+		ts := time.Now()
 		ans, st := rr.ch.Ask(req, 180*time.Second)
+		tot["ms_in_racescen"] += time.Since(ts).Milliseconds()
 		nrep := rr.collect(c, req, seenSig)
 		switch st {
 		case "ok":
